@@ -19,7 +19,7 @@ def streams(ctx):
     for b0 in range(256):
         fin, rsv, op = b0 >> 7, (b0 >> 4) & 7, b0 & 15
         variants = [(0, None, None), (1, None, b"\x01\x02\x03\x04"), (125, None, None), (5, 16, None), (126, None, b"\xff\x00\xaa\x55"),
-                    (3, 64, None)]
+                    (3, 64, None), (0, None, b"\x81\x02hi"), (0, 16, b"\x00\x00\x00\x00")]      # masked frames WITHOUT payload still carry their key
         if ctx.thorough() or b0 % 16 in (0, 1, 2, 8, 9, 10):
             variants += [(65535, None, None), (65536, None, b"abcd")] if (ctx.thorough() or b0 in (0x82, 0x02, 0x80, 0x81)) else []
         for n, form, mask in variants:
